@@ -62,7 +62,7 @@ class ImplS(Impl):
         out = []
         for j in q:
             rs = j.retry_stats
-            out.append([[self.gid[id(o)] for o in j.ops], j.priority.value,
+            out.append([[self.gid_of(o) for o in j.ops], j.priority.value,
                         None if rs is None else [rs.old_cpu, self.qv(rs.old_ram), int(rs.error is not None), self.cids.get(rs.container_id, -1)]])
         return out
 
@@ -80,7 +80,7 @@ class ImplS(Impl):
             return {"queue": [self.pipe_index[id(p)] for p in s.waiting_queue]}
         if self.algo == "overbook":
             idx = {pl.pipeline_id: i for i, (pl, _) in enumerate(self.pipes)}
-            return {"opq": [self.gid[id(o)] for o in s.op_queue],
+            return {"opq": [self.gid_of(o) for o in s.op_queue],
                     "fails": sorted([idx[k], v] for k, v in s.pipeline_failures.items() if v > 0)}
         return {"qry": self.jobs(s.qry_jobs), "inter": self.jobs(s.interactive_jobs), "batch": self.jobs(s.batch_ppln_jobs),
                 "susp": [self.cids.get(k, -1) for k in s.suspending.keys()] if self.algo == "priority" else []}
@@ -93,7 +93,7 @@ class ImplS(Impl):
             self.results = []
             return {"ok": False, "phase": "sched", "err": classify_s(e), "st": self.states()}
         dec = {"sus": [[x.pool_id, self.cids.get(x.container_id, -1)] for x in sus],
-               "asgs": [[a.pool_id, a.cpu, self.qv(a.ram), a.priority.value, [self.gid[id(o)] for o in a.ops]] for a in asg]}
+               "asgs": [[a.pool_id, a.cpu, self.qv(a.ram), a.priority.value, [self.gid_of(o) for o in a.ops]] for a in asg]}
         head = {"dec": dec, "afterSched": self.states(), "sched": self.sched_state()}
         try:
             res = self.ex.run_one_tick(sus, asg)
